@@ -197,12 +197,35 @@ func encodeABIUnsignedInteger(ctx context.Context, desc string, tc *typeComponen
 	return data, false, nil
 }
 
+// scaleFixed calculates the integer X * 10**N that is ABI encoded for a fixed-point value X.
+//
+// The multiplication is performed exactly, and the result rounded to the nearest integer. A binary
+// floating point number can only approximate most decimal fractions, so for example the product of
+// 10 and the closest binary value to "0.7" can be fractionally below 7 (truncating it would give 6).
+func scaleFixed(ctx context.Context, desc string, tc *typeComponent, f *big.Float) (*big.Int, error) {
+	// No value of 2^257 or above can fit, and there is no point materializing a huge integer to find that out
+	if f.IsInf() || f.MantExp(nil) > 257 {
+		return nil, i18n.NewError(ctx, signermsgs.MsgNumberTooLargeABIEncode, tc.m, desc)
+	}
+	fN := new(big.Float).SetInt(new(big.Int).Exp(big.NewInt(10), big.NewInt(int64(tc.n)), nil))
+	// With the sum of the two mantissa sizes as the precision, the product is exact
+	scaled := new(big.Float).SetPrec(f.Prec()+fN.Prec()).Mul(f, fN)
+	sign := int64(scaled.Sign())
+	i, _ := scaled.Int(nil) // discards the fractional part
+	fraction := new(big.Float).SetPrec(scaled.Prec()).Sub(scaled, new(big.Float).SetInt(i))
+	if fraction.Abs(fraction).Cmp(big.NewFloat(0.5)) >= 0 {
+		i.Add(i, big.NewInt(sign))
+	}
+	return i, nil
+}
+
 func encodeFixed(ctx context.Context, desc string, tc *typeComponent, f *big.Float) (data []byte, dynamic bool, err error) {
 	// Encoded as X * 10**N integer
-	fN := new(big.Int).Exp(big.NewInt(10), big.NewInt(int64(tc.n)), nil)
-	f1 := new(big.Float).Mul(f, new(big.Float).SetInt(fN))
-	i, _ := f1.Abs(f1).Int(nil)
-	return encodeABISignedInteger(ctx, desc, tc, i)
+	i, err := scaleFixed(ctx, desc, tc, f)
+	if err != nil {
+		return nil, false, err
+	}
+	return encodeABISignedInteger(ctx, desc, tc, i.Abs(i))
 }
 
 func encodeABISignedFloat(ctx context.Context, desc string, tc *typeComponent, value interface{}) (data []byte, dynamic bool, err error) {
